@@ -2,4 +2,4 @@
 From Coq Require Import ZArith List Bool Lia.
 Import ListNotations.
 Require Import Nib.C03.Model Nib.C03.Ref Nib.C03.Spec.
-Open Scope Z_scope.
+Local Open Scope Z_scope.
